@@ -422,9 +422,15 @@ func (e *Exec) doDelete(i int, op Op) bool {
 			if c.Index != k || c.IsIndex {
 				continue
 			}
-			// R6: a requested dependant that holds samples, but none in the range
-			if inReq[c.Key] && nonVacuous && e.Model.Len(c.Key) > 0 && !e.Model.HasAny(c.Key, op.A, op.B) {
-				tag += "r6pre,"
+			// R6: a dependant that holds samples, but none in the range (its stored domain
+			// extent may still overlap the range with a sample-free head or tail):
+			// requested together with the index (r6pre) or not requested (r6npre)
+			if nonVacuous && e.Model.Len(c.Key) > 0 && !e.Model.HasAny(c.Key, op.A, op.B) {
+				if inReq[c.Key] {
+					tag += "r6pre,"
+				} else {
+					tag += "r6npre,"
+				}
 			}
 			// R7: the range ends one nanosecond after a dependant's sample and not on an
 			// index sample (the start of a rollover domain of that dependant)
@@ -438,6 +444,9 @@ func (e *Exec) doDelete(i int, op Op) bool {
 	}
 	if strings.Contains(tag, "r7pre") && !strings.Contains(e.DeleteTags, "r7pre") {
 		e.DeleteTags += "r7pre,"
+	}
+	if strings.Contains(tag, "r6npre") && !strings.Contains(e.DeleteTags, "r6npre") {
+		e.DeleteTags += "r6npre,"
 	}
 	err := e.DB.DeleteTimeRange(e.Ctx, op.Chans, telem.TimeRange{Start: telem.TimeStamp(op.A), End: telem.TimeStamp(op.B)})
 	e.Deletes++
